@@ -237,3 +237,63 @@ func H_Codec_Differential() {
 	}
 	vx.Reach("codec/differential-end")
 }
+
+// H_Codec_Stream: one value through Decoder/Encoder of the fork and of the standard library (both executed).
+func H_Codec_Stream() {
+	doc := codecDoc(vx.Choose("shape", nCodecShapes), 1, vx.Param("atommask"))
+	vx.Assume(!doc.hasDupKeys())
+	text := render(doc)
+	// two values in one stream, separated by symbolic whitespace
+	stream := append(append(append([]byte{}, text...), symWS("s.ws")), []byte(`[true]`)...)
+	vx.Note("stream", stream)
+	var a1, a2, b1, b2 interface{}
+	var ea1, ea2, eb1, eb2 error
+	var fa, fb bytes.Buffer
+	var moreA, moreB bool
+	panicked := vx.CatchPanic(func() {
+		da := json.NewDecoder(bytes.NewReader(stream))
+		da.UseNumber()
+		ea1 = da.Decode(&a1)
+		moreA = da.More()
+		ea2 = da.Decode(&a2)
+		db := stdjson.NewDecoder(bytes.NewReader(stream))
+		db.UseNumber()
+		eb1 = db.Decode(&b1)
+		moreB = db.More()
+		eb2 = db.Decode(&b2)
+		enc := json.NewEncoder(&fa)
+		enc.SetEscapeHTML(vx.Choose("escape", 2) == 1)
+		enc.Encode(a1)
+		enc.Encode(a2)
+	})
+	vx.Assert(!panicked, "C17/stream-no-panic")
+	if panicked {
+		vx.Note("panic", []byte(vx.PanicMsg()))
+		return
+	}
+	vx.Assert(ea1 == nil && ea2 == nil && eb1 == nil && eb2 == nil, "C17/stream-decodes")
+	vx.Assert(moreA == moreB, "C17/stream-more-same-as-stdlib")
+	if ea1 != nil || ea2 != nil || eb1 != nil || eb2 != nil {
+		return
+	}
+	// same values as the standard library (each re-encoded by its own codec: Number types differ)
+	ra, _ := json.Marshal(a1)
+	rb, _ := stdjson.Marshal(b1)
+	vx.Assert(vx.EqBytes(ra, rb), "C17/stream-decode-same-as-stdlib")
+	// what the Encoder wrote reads back as the two values, one per line
+	out := fa.Bytes()
+	nl := -1
+	for i, c := range out {
+		if c == '\n' {
+			nl = i
+			break
+		}
+	}
+	vx.Assert(nl > 0 && len(out) > 0 && out[len(out)-1] == '\n', "C17/encoder-one-value-per-line")
+	if nl > 0 {
+		g, ok := parseJSON(out[:nl])
+		vx.Assert(ok && refEqual(g, doc), "C17/stream-roundtrip-value")
+	}
+	_ = fb
+	vx.Reach("codec/stream-end")
+}
